@@ -1,0 +1,54 @@
+//go:build verif
+
+package licenseclassifier
+
+// Machine-checked contracts for package licenseclassifier (read by
+// /verif/govc; this file contains comments only and is compiled only with
+// build tag verif).
+//
+// The package-level tables are initialised once and never reassigned inside
+// the package (clients could reassign the exported Normalizers; that is
+// outside what is verified).
+//@ global commonWordsOK: forall i int :: 0 <= i && i < len(commonLicenseWords) ==> commonLicenseWords[i] != nil
+//@ global normalizersOK: forall i int :: 0 <= i && i < len(Normalizers) ==> Normalizers[i] != nil
+//@ global forbiddenOK: forbiddenRegexps != nil && (forall k string :: (k in forbiddenRegexps) ==> forbiddenRegexps[k] != nil)
+//@
+//@ // C16: WithinConfidenceThreshold(conf) implies conf >= Threshold, for IEEE
+//@ // doubles (proved bit-precisely; used by the functions below through `uses`)
+//@ prove within-threshold-means-not-below
+//@   arith bv
+//@   claim forall a float64, b float64 :: (a > b || fabs(a - b) < 5e-324) ==> a >= b
+//@   props C16
+//@
+//@ func (*License).WithinConfidenceThreshold
+//@   requires c != nil
+//@   ensures result ==> conf >= c.Threshold
+//@   modifies nothing
+//@   uses within-threshold-means-not-below
+//@   props C16
+//@
+//@ func (*License).hasCommonLicenseWords
+//@   modifies nothing
+//@   props C16 C14
+//@
+//@ // normText(s): the text after the package's normalisers (assumed pure)
+//@ spec normText(s string) string
+//@ func normalizeText
+//@   function normText
+//@   modifies nothing
+//@   props C16 C14
+//@
+//@ func (*License).NearestMatch
+//@   requires c != nil && readyC(c.c)
+//@   ensures result == nil || fresh(result)
+//@   modifies nothing
+//@   props C14 C16
+//@
+//@ func (*License).MultipleMatch
+//@   requires c != nil && readyC(c.c)
+//@   ensures forall i int :: 0 <= i && i < len(result) ==> result[i] != nil && fresh(result[i]) && result[i].Confidence >= c.Threshold
+//@   ensures forall i int :: 0 <= i && i < len(result) ==> okMatchP(result[i], normOf(c.c, normText(contents)))
+//@   modifies allof(stringclassifier.knownValue.set)
+//@   loop 1 invariant forall i int :: 0 <= i && i < len(rangeslice) ==> rangeslice[i] != nil && fresh(rangeslice[i]) && okMatchP(rangeslice[i], normOf(c.c, normText(contents)))
+//@   loop 1 invariant (matches == nil || (fresh(matches) && ref(matches) != ref(rangeslice))) && (forall i int :: 0 <= i && i < len(matches) ==> matches[i] != nil && fresh(matches[i]) && matches[i].Confidence >= c.Threshold && okMatchP(matches[i], normOf(c.c, normText(contents))))
+//@   props C16 C14
